@@ -475,12 +475,13 @@ class Locale:
         """Returns a comma-separated number for the given integer."""
         if self.code not in ("en", "en_US"):
             return str(value)
-        s = str(value)
+        s = str(abs(value))
         parts = []
         while s:
             parts.append(s[-3:])
             s = s[:-3]
-        return ",".join(reversed(parts))
+        grouped = ",".join(reversed(parts))
+        return "-" + grouped if value < 0 else grouped
 
 
 class CSVLocale(Locale):
